@@ -64,6 +64,17 @@ def rw_scenario(sid, r, w, rq, rng, tier):
             if s == "expired":
                 st["expired"].append(1 + i)
         steps.append(st)
+    # Incr over the same layouts (integer copies): it reads with the read quorum first; an unreadable counter must be refused
+    for lay in layouts:
+        if any(s == "expired" for s in lay[1:]):
+            continue
+        tss = [rng.randrange(1, 4) for _ in range(1 + nb)]
+        st = {"op": "incr", "key": key("i"), "local": tss[0] if lay[0] else None, "backups": [], "down": [], "expired": []}
+        for i, s_ in enumerate(lay[1:]):
+            st["backups"].append(tss[1 + i] if s_ in ("copy", "copy-down") else None)
+            if s_.endswith("-down"):
+                st["down"].append(i)
+        steps.append(st)
     return {"id": sid, "kind": "rw", "members": members_for(r), "r": r, "w": w, "rq": rq, "table": TABLE, "steps": steps}
 
 
@@ -181,6 +192,48 @@ def check_get(sc, st, ob):
     return None
 
 
+def check_incr(sc, st, ob):
+    """Incr = a read with the read quorum, then a write of value+1: a counter that exists on a reachable holder but cannot
+    be read with ReadQuorum copies is refused (ErrReadQuorum) and nothing is written; otherwise the result continues the
+    newest reachable copy"""
+    rq = sc["rq"]
+    nb, exp, down, local, bs = get_layout(sc, st, ob)
+    obtained_max = (1 if local is not None else 0) + sum(1 for i in range(nb) if bs[i] is not None and i not in down)
+    exists_reachable = local is not None or any(bs[i] is not None and i not in down for i in range(nb))
+    cands = []
+    if local is not None:
+        cands.append((local, 100 + local))
+    for i in range(nb):
+        if bs[i] is not None and i not in down:
+            cands.append((bs[i], 200 * (i + 1) + bs[i]))
+    before = [local] + bs
+    after = [ob["p"]] + ob["b"]
+    unchanged = all(a["found"] == (b is not None) and (not a["found"] or a.get("ts") == b) for a, b in zip(after, before))
+    if exists_reachable and obtained_max < rq:
+        if ob["res"] != "readquorum":
+            return ("the counter exists on a reachable holder but only %d < ReadQuorum=%d copies can be read; Incr returned %s %s "
+                    "(it must be refused: the current value is unknown)" % (obtained_max, rq, ob["res"], ob.get("val", "")))
+        if not unchanged:
+            return "a refused Incr changed a copy"
+        return None
+    if ob["res"] == "ok":
+        if cands:
+            top = max(ts for ts, _ in cands)
+            allowed = {str(v + 1) for ts, v in cands if ts == top}
+        else:
+            allowed = {"1"}
+        if ob.get("val") not in allowed:
+            return "Incr returned %s, the newest reachable copy holds %s" % (ob.get("val"), sorted(int(a) - 1 for a in allowed))
+    elif ob["res"] == "readquorum":
+        if obtained_max >= rq and exists_reachable:
+            return "%d >= ReadQuorum=%d copies can be read, Incr was refused with ErrReadQuorum" % (obtained_max, rq)
+        if not unchanged:
+            return "a refused Incr changed a copy"
+    elif ob["res"] != "writequorum":
+        return "Incr failed with %s (%s)" % (ob["res"], ob.get("err"))
+    return None
+
+
 def check_mcq(sc, ob):
     if ob.get("crash"):
         return "the harness process died while the commands were sent: " + ob["crash"][-400:]
@@ -215,7 +268,7 @@ def check(sc, ob):
         if i >= len(ob["steps"]):
             bad.append((i, "no observation"))
             break
-        m = check_put(sc, st, ob["steps"][i]) if st["op"] == "put" else check_get(sc, st, ob["steps"][i])
+        m = (check_put if st["op"] == "put" else check_incr if st["op"] == "incr" else check_get)(sc, st, ob["steps"][i])
         if m:
             bad.append((i, m))
     return bad
@@ -273,6 +326,8 @@ def coq_cases(sc, ob):
             out.append(((sc["id"], "step", i), "CPut %s %s %s %s %s %s %s" % (
                 cnat(sc["r"]), cnat(sc["w"]), oks, lerr, PCLASS.get(o["res"], "POther"), cbool(o["p"]["found"]),
                 clist(cbool(b["found"]) for b in o["b"]))))
+        elif st["op"] == "incr":
+            continue        # judged by check_incr (the read half is the CGet of the same layout)
         else:
             nb, exp, down, local, bs = get_layout(sc, st, o)
             loc = copt(qlib.centry("p@%d" % local, 1 if 0 in exp else 0, local)) if local is not None else "None"
